@@ -1357,6 +1357,9 @@ func (m *RadioTap) DecodeFromBytes(data []byte, df gopacket.DecodeFeedback) erro
 	}
 	m.Version = uint8(data[0])
 	m.Length = binary.LittleEndian.Uint16(data[2:4])
+	// the namespace values are those of this packet only, also when the layer is reused
+	m.RadioTapValues = nil
+	m.VendorValues = nil
 
 	// Truncate the length to avoid panics, might be smaller due to corruption or loss
 	if m.Length > dataLen {
